@@ -41,9 +41,9 @@ def _is_sum_of(e: ast.AST, inner) -> bool:
 
 
 def is_root_sum_square(fn_expr: ast.AST) -> bool:
-    """lambda x: sqrt(sum(square(x)))  in any of the equivalent spellings; or np.linalg.norm."""
-    if unparse(fn_expr) in ("np.linalg.norm", "numpy.linalg.norm"):
-        return True
+    """lambda x: sqrt(sum(square(x)))  in any of the equivalent spellings.
+    np.linalg.norm is NOT one of them: np.sum / Series.sum skip the NaN rows of a period (days without a prediction),
+    the norm propagates them, so a period with one gap day would lose its uncertainty (seeded change C19-norm)."""
     if not isinstance(fn_expr, ast.Lambda) or len(fn_expr.args.args) != 1:
         return False
     var = fn_expr.args.args[0].arg
@@ -53,8 +53,6 @@ def is_root_sum_square(fn_expr: ast.AST) -> bool:
         inner = b.args[0]
     elif isinstance(b, ast.BinOp) and isinstance(b.op, ast.Pow) and unparse(b.right) in ("0.5", "1 / 2", "(1 / 2)"):
         inner = b.left
-    elif isinstance(b, ast.Call) and unparse(b.func) in ("np.linalg.norm",) and len(b.args) == 1 and unparse(b.args[0]) == var:
-        return True
     if inner is None:
         return False
     return _is_sum_of(inner, lambda z: _is_square(z, var))
@@ -90,6 +88,29 @@ def _agg_kind(fi, rd, st, call: ast.Call) -> str:
             return "rss"
         return f"custom:{unparse(fv if fv is not None else f)[:60]}"
     return f"other:{a}"
+
+
+def aggregation_table(chk, fi: FuncInfo):
+    """(name bound to the self._predict result, {column: (aggregator kind, frequency expr, frame read, stmt)}) of a billing predict()."""
+    cfg = CFG(fi.node)
+    rd = ReachingDefs(fi.node, cfg)
+    works = [st for st, _c in self_calls(fi, {"_predict"})]
+    if not works:
+        raise AnalysisError(f"{fi.key}: no self._predict call")
+    work = works[0]
+    src_name = work.targets[0].id if isinstance(work, ast.Assign) and isinstance(work.targets[0], ast.Name) else None
+    table = {}
+    for st in cfg.stmts():
+        if not isinstance(st, ast.Assign) or not isinstance(st.value, ast.Call) or not isinstance(st.value.func, ast.Attribute):
+            continue
+        c = st.value
+        inner = c.func.value
+        if isinstance(inner, ast.Call) and isinstance(inner.func, ast.Attribute) and inner.func.attr == "resample":
+            sel = inner.func.value
+            if isinstance(sel, ast.Subscript) and const_str(sel.slice) is not None:
+                freq = unparse(inner.args[0]) if inner.args else unparse(kwarg(inner, "rule"))
+                table[const_str(sel.slice)] = (_agg_kind(fi, rd, st, c), freq, unparse(sel.value), st)
+    return src_name, table
 
 
 def run(chk):
@@ -252,7 +273,8 @@ def run(chk):
     ok = is_root_sum_square(ast.parse("lambda x: np.sqrt(np.sum(np.square(x)))", mode="eval").body) and \
         is_root_sum_square(ast.parse("lambda v: (v ** 2).sum() ** 0.5", mode="eval").body) and \
         not is_root_sum_square(ast.parse("lambda x: np.sum(np.sqrt(np.square(x)))", mode="eval").body) and \
-        not is_root_sum_square(ast.parse("lambda x: np.sqrt(np.mean(np.square(x)))", mode="eval").body)
+        not is_root_sum_square(ast.parse("lambda x: np.sqrt(np.mean(np.square(x)))", mode="eval").body) and \
+        not is_root_sum_square(ast.parse("np.linalg.norm", mode="eval").body)
     if not ok:
         raise AnalysisError("R19.1 root-sum-square matcher control failed")
     r1.inst("control|rss-matcher")
